@@ -199,12 +199,41 @@ func RunC11(r *core.Run) {
 		st.Exhaustive = true
 		st.Space = es.Desc() + fmt.Sprintf(" wrapped in %q/%q, parsers %v, k in {1,3}, one-shot and every prefix", f.Prefixes, f.Suffixes, f.Parsers)
 	}
+	// name-addr values whose parameters carry errors (ParamErr / ErrOffs are positional too)
+	r.Stage("name-addr-param-errors", r.Pick(60000, 1500000), func(w *core.Worker, idx int64) {
+		rr := core.NewRand(r.Seed, 0xC11, 4, uint64(idx))
+		digits := func(n int) string { return string(rr.Bytes(n, []byte("0123456789"))) }
+		bad := []string{";q=" + digits(rr.Range(19, 30)), ";q=1.5", ";q=0.12345", ";q=2", ";q=" + digits(21) + ".5", ";q=0." + digits(25), ";expires=" + digits(rr.Range(18, 40)),
+			";q=1." + digits(3), ";expires=12ab", ";q=x", ";q=", ";=5", ";q=18446744073709551617"}[rr.Intn(13)]
+		x := []byte([]string{" <sip:a@b>", "\"n\" <sip:c>;x=1", "sip:d"}[rr.Intn(3)] + []string{"", ";tag=t1"}[rr.Intn(2)] + bad + []string{"", ";y=2", " ; lr"}[rr.Intn(3)] + "\r\nX")
+		p := ParserByName([]string{"ParseFromVal", "ParseOneContact", "ParseAllContactValues", "ParseHdrLine+PHdrVals"}[rr.Intn(4)])
+		if p.Group == "hdrpv" {
+			x = append([]byte([]string{"f:", "m:", "Contact :", "t:"}[rr.Intn(4)]), x...)
+		}
+		k := pickK(rr, len(x))
+		s := sc(w)
+		s.buf = shiftBuf(rr, s.buf, x, k)
+		c := &Case{P: p, Cfg: Cfg{HdrCap: -1, ContactCap: 2, ParamCap: 4}, Buf: x}
+		s.cuts = append(s.cuts[:0], len(x))
+		def := CheckShift(w, c, s.buf, k, s.cuts)
+		s.cuts = CutsRandom(s.cuts, rr, 0, len(x), rr.Range(1, 4))
+		def = CheckShift(w, c, s.buf, k, s.cuts) || def
+		if def {
+			w.Nontrivial(core.HashBytes(x) ^ uint64(k)<<44)
+			w.Inc("nontrivial_cases")
+		}
+	})
 	// relocation of parsed URIs
 	r.Stage("uri-relocation", r.Pick(200000, 3000000), func(w *core.Worker, idx int64) {
 		rr := core.NewRand(r.Seed, 0xC11, 3, uint64(idx))
 		u := []byte(gen.URI(rr).String())
-		if rr.Intn(4) == 0 {
+		switch rr.Intn(6) {
+		case 0:
 			u = append([]byte("sip:"), rr.Bytes(rr.Range(1, 10), []byte(":@;?&=[].a1"))...)
+		case 1:
+			u = append([]byte([]string{"tel:", "TEL:", "sips:"}[rr.Intn(3)]), rr.Bytes(rr.Range(1, 10), []byte(":;?=.a1+-"))...)
+		case 2:
+			u = []byte([]string{"tel:911:5", "tel:+1-201-555-0123:5060;phone-context=x", "tel:1;ext=2", "tel:5?h=1"}[rr.Intn(4)])
 		}
 		t := pickK(rr, len(u))
 		if msg := relocateCheck(u, t, len(u)+rr.Intn(3), rr); msg != "" {
@@ -281,12 +310,13 @@ func relocateCheck(u []byte, t, span int, rr *core.Rand) string {
 	t2 := rr.Intn(65535 - len(u))
 	q2 := q
 	var ok2 bool
-	pan, pmsg, _ = core.Guard(func() { ok2 = q2.AdjustOffs(sipsp.PField{Offs: sipsp.OffsT(t2), Len: sipsp.OffsT(len(u))}) })
+	span2 := []int{len(u), len(u) + 1, 65535 - t2, len(u) + rr.Intn(65535-t2-len(u)+1)}[rr.Intn(4)]
+	pan, pmsg, _ = core.Guard(func() { ok2 = q2.AdjustOffs(sipsp.PField{Offs: sipsp.OffsT(t2), Len: sipsp.OffsT(span2)}) })
 	if pan {
 		return "second AdjustOffs panicked: " + pmsg
 	}
 	if !ok2 {
-		return fmt.Sprintf("URI relocated to %d cannot be relocated again to %d (span %d = its length)", t, t2, len(u))
+		return fmt.Sprintf("URI (len %d) relocated to %d cannot be relocated again to %d with span %d", len(u), t, t2, span2)
 	}
 	nf2 := []sipsp.PField{q2.Scheme, q2.User, q2.Pass, q2.Host, q2.Port, q2.Params, q2.Headers}
 	for i := range of {
